@@ -314,6 +314,103 @@ func genC03(repo string, args []string) (string, error) {
 		return found == 1
 	}
 	_ = lrs
+	// ---- merging rule sets (second Load, bundle import): a cloned rule keeps every field of goRule
+	gf, err := parser.ParseFile(fset, repo+"/ruleguard/gorule.go", nil, 0)
+	if err != nil {
+		return "", err
+	}
+	var ruleFields []string
+	ast.Inspect(gf, func(n ast.Node) bool {
+		ts, ok := n.(*ast.TypeSpec)
+		if !ok || ts.Name.Name != "goRule" {
+			return true
+		}
+		if st, ok := ts.Type.(*ast.StructType); ok {
+			for _, f := range st.Fields.List {
+				for _, nm := range f.Names {
+					ruleFields = append(ruleFields, nm.Name)
+				}
+				if len(f.Names) == 0 {
+					ruleFields = append(ruleFields, "<embedded "+exprString(fset, f.Type)+">")
+				}
+			}
+		}
+		return false
+	})
+	cs := c03FindFunc(gf, "cloneRuleSlice")
+	as := c03FindFunc(gf, "appendScopedRuleSet")
+	if cs == nil || as == nil || len(ruleFields) == 0 {
+		return "", fmt.Errorf("goRule / cloneRuleSlice / appendScopedRuleSet not found in gorule.go")
+	}
+	// inside the loop over the slice: either a whole-struct copy `clone := rule` (then only clone.pat may be reassigned, to
+	// rule.pat.Clone()), or a goRule{...} literal that names EVERY field of the struct, each from the same field of the
+	// source rule (pat through Clone())
+	cloneOK := false
+	var crs *ast.RangeStmt
+	ast.Inspect(cs.Body, func(n ast.Node) bool {
+		if rs, ok := n.(*ast.RangeStmt); ok && crs == nil {
+			crs = rs
+		}
+		return true
+	})
+	if crs != nil && crs.Value != nil {
+		srcVar := exprString(fset, crs.Value)
+		whole, literal, other := false, false, false
+		cloneVar := ""
+		ast.Inspect(crs.Body, func(n ast.Node) bool {
+			switch st := n.(type) {
+			case *ast.AssignStmt:
+				if len(st.Lhs) != 1 || len(st.Rhs) != 1 {
+					other = true
+					return true
+				}
+				l, r := exprString(fset, st.Lhs[0]), exprString(fset, st.Rhs[0])
+				switch {
+				case st.Tok == token.DEFINE && r == srcVar:
+					whole, cloneVar = true, l
+				case st.Tok == token.DEFINE:
+					if cl, ok := st.Rhs[0].(*ast.CompositeLit); ok && exprString(fset, cl.Type) == "goRule" {
+						cloneVar = l
+						seen := map[string]string{}
+						for _, e := range cl.Elts {
+							kv, ok := e.(*ast.KeyValueExpr)
+							if !ok {
+								other = true
+								continue
+							}
+							seen[exprString(fset, kv.Key)] = exprString(fset, kv.Value)
+						}
+						literal = len(seen) == len(ruleFields)
+						for _, f := range ruleFields {
+							want := srcVar + "." + f
+							if f == "pat" {
+								want = srcVar + ".pat.Clone()"
+							}
+							if seen[f] != want {
+								literal = false
+							}
+						}
+					} else {
+						other = true
+					}
+				case cloneVar != "" && l == cloneVar+".pat" && r == srcVar+".pat.Clone()":
+				case strings.HasPrefix(l, "out["):
+					if r != cloneVar {
+						other = true
+					}
+				default:
+					other = true
+				}
+			}
+			return true
+		})
+		cloneOK = (whole || literal) && !other
+	}
+	add("cloneRuleSlice: a rule copied when rule sets are merged keeps every field of goRule (only the pattern is cloned)", cloneOK)
+	ass := c03StmtSet(fset, as)
+	add("appendScopedRuleSet: merging appends every syntax rule (cloned) and every comment rule of the later set, in order",
+		ass[normText("dst.rulesByTag[tag] = append(dst.rulesByTag[tag], cloneRuleSlice(rules)...)")] == 1 &&
+			ass[normText("dst.commentRules = append(dst.commentRules, src.commentRules...)")] == 1)
 	add("loadRule: each syntax alternative is loaded with its own line", altLoop("SyntaxPatterns", "loadSyntaxRule"))
 	add("loadRule: each comment alternative is loaded with its own line", altLoop("CommentPatterns", "loadCommentRule"))
 
@@ -332,5 +429,5 @@ func genC03(repo string, args []string) (string, error) {
 		fmt.Fprintf(&sb, "  (%q%%string, %s)%s\n", strings.ReplaceAll(f.name, "\"", "'"), b, sep)
 	}
 	sb.WriteString("].\n")
-	return fmt.Sprintf(header, "ruleguard/runner.go, ruleguard/ir_loader.go") + sb.String(), nil
+	return fmt.Sprintf(header, "ruleguard/runner.go, ruleguard/ir_loader.go, ruleguard/gorule.go") + sb.String(), nil
 }
